@@ -368,6 +368,15 @@ def _program(prog_idx):
                        f"RecipeStep,{e2.step_kind(act)}")
     ntok += k
     out += vs
+    if act['op'] == 'transfer' and not vs:
+        # 'Transfer <q> from '<source>' to '<destination>'.': the two names are those of the step's source and destination
+        import re as _re
+        m = _re.search(r"from '(.*)' to '(.*)'\.", step.instructions.replace('\n', ' '))
+        sname, dname = e1.refname(act['src']), e1.refname(act['dst'])
+        if m and not (m.group(1).strip().startswith(sname) and m.group(2).strip().startswith(dname)):
+            out.append(V(f"instructions | wrong-object-named | RecipeStep,{e2.step_kind(act)}",
+                         f"step {i} of [{' ; '.join(e1.act_str(a) for a in program)}] moves material from {sname} to {dname}, its "
+                         f"text says {step.instructions!r}", case, f"from '{sname}...' to '{dname}...'", step.instructions))
     # the baked objects' own instructions: last line of every object the step changed
     for n in sorted(involved):
         oa = states[i + 1].get(n)
